@@ -336,6 +336,13 @@ class VerifyMixin:
         # statements of the root that no feasible path reached: dead under the contract's preconditions / callee contracts.
         # Reported (evidence + DEAD-UNDER-CONTRACT lines), since an over-strong precondition makes clauses about them vacuous.
         dead = self.unreached_lines(finfo, self.executed_nodes)
+        rep = self.dead_under_contract.setdefault('$paths', {})
+        if n_normal == 0:
+            rep.setdefault('roots_without_a_normal_return', []).append(c.target + suffix)
+        raised = {o[1].cls for o, _ in terminals if o[0] == 'raise'}
+        unused = [k for k in c.raises if not any(k == r or (r != '$stored' and k != '$stored' and self.exc_is_subclass(r, k)) for r in raised)]
+        if unused:
+            rep.setdefault('allowed_exceptions_no_path_raises', {})[c.target + suffix] = sorted(unused)
         if dead:
             self.dead_under_contract.setdefault(c.target, {})[suffix or '-'] = sorted(set(dead))
         elif suffix:
